@@ -1024,7 +1024,39 @@ def generic_node_check(ctx, scenarios, strict, what, rule, min_events=None):
     return parts, kinds
 
 
+MAINT_MC_CFG = """SPECIFICATION Spec
+CONSTANTS
+  CONTACTS = {%(contacts)s}
+  RTT = %(rtt)d
+  REBOOTSTRAP = %(reboot)s
+  HORIZON = %(horizon)d
+  SILENT_AT = {0, 10000, 898000, 900000%(more)s}
+  AskAgainWhileUnanswered = %(again)s
+INVARIANT ResponsiveNeverLost
+INVARIANT QuestionableAtMost30s
+INVARIANT SilentGoneBy
+CHECK_DEADLOCK FALSE
+"""
+
+
+def maintenance_mc(ctx):
+    """Design level (spec/Maintenance.tla): status rules + refresh cadence + re-bootstrap passes over every partition of the contacts
+    into always-answering / silent-from-t, both regimes, short and long round trips; the pinned bootstrap pass must be caught."""
+    q = ctx.quick
+    for reboot in ("TRUE", "FALSE"):
+        for rtt in (2, 1998):
+            r = vlib.tlc("mc/MC_Maintenance.tla", ctx.cfg("mcmaint-%s-%d.cfg" % (reboot, rtt), MAINT_MC_CFG % dict(
+                contacts="1, 2, 3" if q else "1, 2, 3, 4, 5", rtt=rtt, reboot=reboot, horizon=2400000 if q else 7200000,
+                more="" if q else ", 3600000", again="FALSE")), workers=4 if q else 8, timeout=1500 if q else 3400, heap="6g")
+            vlib.require_mc_ok(r, "MC_Maintenance")
+            ctx.add_mc("MC_Maintenance(re-bootstrap=%s, RTT=%d ms)" % (reboot, rtt), r)
+    neg = vlib.tlc("mc/MC_Maintenance.tla", ctx.cfg("mcmaint-neg.cfg", MAINT_MC_CFG % dict(
+        contacts="1, 2", rtt=1998, reboot="TRUE", horizon=1200000, more="", again="TRUE")), workers=4, timeout=900)
+    vlib.require_mc_fails(neg, "ResponsiveNeverLost", "AskAgainWhileUnanswered=TRUE")
+
+
 def check_C11(ctx):
+    maintenance_mc(ctx)
     ctx.assumptions += LOOKUP_ASSUME + ["contacts are sampled through load_contacts() every 5 virtual seconds: bounds carry a 5 s sampling slack",
                                         "premises of C11: loss-free network, no bucket full (at most 12 contacts in distinct buckets)"]
     generic_node_check(ctx, maint_scenarios(ctx), ["C11"], "maint",
